@@ -30,20 +30,23 @@ Definition rdm_inv (f : list N) (st : rdm_st) : Prop :=
 Definition rdm_ext (st st' : rdm_st) : Prop :=
   (exists l, rdm_tr st' = l ++ rdm_tr st) /\
   (rdm_stale st = true -> rdm_stale st' = true) /\
-  (rdm_flt st <> 0 -> rdm_flt st' = rdm_flt st).
+  (rdm_flt st <> 0 -> rdm_flt st' = rdm_flt st) /\
+  rp_fend (rp_r (rdm_io st')) = rp_fend (rp_r (rdm_io st)).
 
 Definition rdm_ok (f : list N) (st st' : rdm_st) : Prop := rdm_inv f st -> rdm_inv f st' /\ rdm_ext st st'.
 
 Lemma rdm_ext_refl : forall st, rdm_ext st st.
-Proof. intro st. split; [exists []; reflexivity | split; auto]. Qed.
-Lemma rdm_ext_same : forall st st', rdm_tr st' = rdm_tr st -> rdm_stale st' = rdm_stale st -> rdm_flt st' = rdm_flt st -> rdm_ext st st'.
-Proof. intros st st' H1 H2 H3. split; [exists []; now rewrite H1 | split; [now rewrite H2 | intros _; exact H3]]. Qed.
+Proof. intro st. split; [exists []; reflexivity | split; [auto | split; auto]]. Qed.
+Lemma rdm_ext_same : forall st st', rdm_tr st' = rdm_tr st -> rdm_stale st' = rdm_stale st -> rdm_flt st' = rdm_flt st ->
+  rp_fend (rp_r (rdm_io st')) = rp_fend (rp_r (rdm_io st)) -> rdm_ext st st'.
+Proof. intros st st' H1 H2 H3 H4. split; [exists []; now rewrite H1 | split; [now rewrite H2 | split; [intros _; exact H3 | exact H4]]]. Qed.
 Lemma rdm_ext_trans : forall a b c, rdm_ext a b -> rdm_ext b c -> rdm_ext a c.
 Proof.
-  intros a b c ([l1 H1] & S1 & F1) ([l2 H2] & S2 & F2). split; [|split].
+  intros a b c ([l1 H1] & S1 & F1 & E1) ([l2 H2] & S2 & F2 & E2). split; [|split; [|split]].
   - exists (l2 ++ l1). rewrite H2, H1. now rewrite app_assoc.
   - auto.
   - intro H. rewrite F2; [now apply F1 | rewrite F1; assumption].
+  - congruence.
 Qed.
 Lemma rdm_ok_refl : forall f st, rdm_ok f st st.
 Proof. intros f st H. split; [exact H | apply rdm_ext_refl]. Qed.
@@ -61,13 +64,13 @@ Lemma rdm_fault_ok : forall st c f, rdm_ok f st (rdm_fault st c).
 Proof.
   intros st c f (Hf & Hi & Ht). split.
   - split; [exact Hf | split; [exact Hi | exact Ht]].
-  - split; [exists []; reflexivity | split; [auto |]]. intro H. apply rdm_io_fault_flt. exact H.
+  - split; [exists []; reflexivity | split; [auto | split; [| reflexivity]]]. intro H. apply rdm_io_fault_flt. exact H.
 Qed.
 Lemma rdm_fault_if_ok : forall st b c f, rdm_ok f st (rdm_fault_if st b c).
 Proof. intros st b c f. destruct b; [apply rdm_fault_ok | apply rdm_ok_refl]. Qed.
 Lemma rdm_set_stale_ok : forall st b f, rdm_ok f st (rdm_set_stale st b).
 Proof.
-  intros st b f H. split; [exact H |]. split; [exists []; reflexivity | split; [| auto]].
+  intros st b f H. split; [exact H |]. split; [exists []; reflexivity | split; [| split; [auto | reflexivity]]].
   cbn. intro E. rewrite E. reflexivity.
 Qed.
 Lemma rdm_put_len_ok : forall st id v f, rdm_ok f st (rdm_put_len st id v).
@@ -111,20 +114,26 @@ Proof.
   intros s o. unfold rp_chunk_seek, rp_bk_fseek. destruct (o =? 0); [split; reflexivity |].
   cbn [rp_io_set_r rp_r]. destruct (rp_two63 <=? o); split; reflexivity.
 Qed.
+Lemma rdm_chunk_seek_fend : forall s o, rp_fend (rp_r (fst (rp_chunk_seek s o))) = rp_fend (rp_r s).
+Proof.
+  intros s o. unfold rp_chunk_seek, rp_bk_fseek. destruct (o =? 0); [reflexivity |].
+  cbn [rp_io_set_r rp_r]. destruct (rp_two63 <=? o); reflexivity.
+Qed.
 Lemma rdm_seek_ok : forall st o f, rdm_ok f st (fst (rdm_seek st o)).
 Proof.
   intros st o f (Hf & Hi & Ht). unfold rdm_seek.
   pose proof (rr_inv_chunk_seek (rdm_io st) o Hi) as H1. pose proof (rdm_chunk_seek_file (rdm_io st) o) as [H2 H3].
+  pose proof (rdm_chunk_seek_fend (rdm_io st) o) as H4.
   destruct (rp_chunk_seek (rdm_io st) o) as [s1 rc]. cbn [fst] in *. split.
   - split; [cbn; congruence | split; [exact H1 | exact Ht]].
-  - split; [exists []; reflexivity | split; [auto |]]. intros _. exact H3.
+  - split; [exists []; reflexivity | split; [auto | split; [| exact H4]]]. intros _. exact H3.
 Qed.
 
 Lemma rdm_rd_chunk_ok : forall st f, rdm_ok f st (fst (rdm_rd_chunk st)).
 Proof.
   intros st f (Hf & Hi & Ht). unfold rdm_rd_chunk.
   destruct (rp_rd_chunk (rdm_io st)) as [s1 rc] eqn:E.
-  destruct (rr_rd_chunk_any _ _ _ Hi E) as (Hi1 & Hf1 & _ & Hflt).
+  destruct (rr_rd_chunk_any _ _ _ Hi E) as (Hi1 & Hf1 & Hfe & Hflt).
   assert (Hmono : rdm_flt st <> 0 -> rp_flt s1 = rdm_flt st).
   { intro H. destruct Hflt as [H1 | (H1 & _)]; [exact H1 | unfold rdm_flt in H; contradiction]. }
   destruct (rc =? 0) eqn:Erc; cbn [fst].
@@ -136,20 +145,20 @@ Proof.
       unfold rdm_ev_ok. cbn [rdm_ev_off rdm_ev_hdr rdm_ev_pay]. rewrite Hoff. rewrite <- Hf.
       split; [exact Hat | split; [exact Hpay | split; [exact Hlen |]]].
       intro Hne. destruct (Hcrc Hne) as (_ & A & B). split; assumption.
-    + split; [eexists [_]; reflexivity | split; [auto | exact Hmono]].
+    + split; [eexists [_]; reflexivity | split; [auto | split; [exact Hmono | exact Hfe]]].
   - split.
     + split; [cbn; congruence | split; [exact Hi1 | exact Ht]].
-    + split; [exists []; reflexivity | split; [auto | exact Hmono]].
+    + split; [exists []; reflexivity | split; [auto | split; [exact Hmono | exact Hfe]]].
 Qed.
 
 Lemma rdm_rd_header_ok : forall st f, rdm_ok f st (fst (rdm_rd_header st)).
 Proof.
   intros st f (Hf & Hi & Ht). unfold rdm_rd_header.
   destruct (rp_raw_rd_header (rdm_io st)) as [s1 rc] eqn:E.
-  destruct (rr_rd_header_spec _ _ _ Hi E) as (Hi1 & Hf1 & _ & _ & _ & Hflt & _).
+  destruct (rr_rd_header_spec _ _ _ Hi E) as (Hi1 & Hf1 & _ & _ & _ & Hflt & Hfe & _).
   cbn [fst]. split.
   - split; [cbn; congruence | split; [exact Hi1 | exact Ht]].
-  - split; [exists []; reflexivity | split; [auto |]]. intros _. exact Hflt.
+  - split; [exists []; reflexivity | split; [auto | split; [| exact Hfe]]]. intros _. exact Hflt.
 Qed.
 
 Lemma rdm_inv_invalid : forall s r, rp_flen s = rp_len (rp_file s) -> rp_r_valid r = false -> rr_inv (rp_io_set_r s r).
